@@ -18,6 +18,7 @@ import (
 	"github.com/jech/storrent/config"
 	"github.com/jech/storrent/hash"
 	"github.com/jech/storrent/mono"
+	"github.com/jech/storrent/verifhook"
 )
 
 // ErrHashMismatch is returned by AddData when hash validation fails.
@@ -210,6 +211,7 @@ func (ps *Pieces) ReadAt(p []byte, off int64) (int, error) {
 	index := int(off / int64(ps.pieceSize))
 	begin := int(off % int64(ps.pieceSize))
 
+	verifhook.Point("piece.readat.prelock")
 	ps.mu.RLock()
 	defer ps.mu.RUnlock()
 
@@ -241,6 +243,7 @@ func (ps *Pieces) AddData(index uint32, begin uint32, data []byte, peer uint32) 
 		return
 	}
 
+	verifhook.Point("piece.adddata.prelock")
 	ps.mu.Lock()
 	defer ps.mu.Unlock()
 
@@ -313,6 +316,7 @@ func (ps *Pieces) Finalise(index uint32, h hash.Hash) (done bool, peers []uint32
 		return
 	}
 
+	verifhook.Point("piece.finalise.prelock")
 	ps.mu.Lock()
 	defer ps.mu.Unlock()
 
@@ -335,8 +339,10 @@ func (ps *Pieces) Finalise(index uint32, h hash.Hash) (done bool, peers []uint32
 	ps.pieces[index].setState(0, stateBusy)
 	ps.mu.Unlock()
 
+	verifhook.Point("piece.finalise.hash.begin")
 	hsh := sha1.Sum(data)
 	hh := hash.Hash(hsh[:])
+	verifhook.Point("piece.finalise.hash.end")
 
 	ps.mu.Lock()
 	peers = ps.pieces[index].peers
@@ -365,6 +371,7 @@ func (ps *Pieces) del(p uint32, force bool) (done bool, complete bool) {
 		ps.mu.Unlock()
 		t := 10 * time.Microsecond
 		for ps.pieces[p].Busy() {
+			verifhook.Point("piece.del.wait")
 			time.Sleep(t)
 			if t < 10*time.Millisecond {
 				t = t * 2
@@ -480,6 +487,7 @@ func (ps *Pieces) Expire(bytes int64, available []uint16, f func(index uint32)) 
 		if todo <= 0 {
 			break
 		}
+		verifhook.Point("piece.expire.next")
 		ps.mu.Lock()
 		done, complete := ps.del(index, false)
 		ps.mu.Unlock()
